@@ -10,8 +10,14 @@ from mc.engine import Harness, Result, V
 from mc.heapfp import try_fingerprint
 from mc.world import reset_globals
 
-PARAMS = ['l', 's', 'n', 'k', 'g', 'x', 'lr', 'ro']
-INSTANTIATED = ['l', 'x', 'lr']
+PARAMS = ['l', 's', 'n', 'k', 'g', 'x', 'lr', 'ro', 'tx']
+INSTANTIATED = ['l', 'x', 'lr', 'tx']
+
+
+def rd(h, p):
+    """tx is an immutable tuple around a mutable list (Tuple(default=([6],), instantiate=True)): the list is what the model tracks"""
+    v = getattr(h, p)
+    return v[0] if p == 'tx' and isinstance(v, tuple) and len(v) == 1 else v
 ATTRS = [('n', 'bounds'), ('g', 'bounds'), ('n', 'doc'), ('sel', '_objects'), ('sel0', '_objects'), ('n', 'constant'), ('l', 'bounds'),
          ('osel', '_objects'), ('osel', 'names')]
 PARENT = {'Leaf': 'Sub2', 'Sub2': 'Sub', 'Sub': 'M'}
@@ -87,7 +93,7 @@ class C12(Harness):
         cfg = cfg or {}
         reset_globals()
         m = Model()
-        d = {'l': m.new([1]), 's': m.new([10]), 'n': 1, 'k': m.new([5]), 'g': 2, 'x': m.new([4]), 'lr': m.new([3]), 'ro': m.new([8])}
+        d = {'l': m.new([1]), 's': m.new([10]), 'n': 1, 'k': m.new([5]), 'g': 2, 'x': m.new([4]), 'lr': m.new([3]), 'ro': m.new([8]), 'tx': m.new([6])}
         real = {t: list(c) for t, c in m.contents.items()}
         ns = {
             'l': param.List(default=real['t0']), 's': param.Parameter(default=real['t1']), 'n': param.Number(default=1, bounds=(0, 10), doc='d0'),
@@ -95,6 +101,7 @@ class C12(Harness):
             'sel': param.Selector(objects=['a', 'b']), 'sel0': param.Selector(),
             'x': param.Parameter(default=real['t3'], instantiate=True), 'lr': param.List(default=real['t4'], allow_refs=True),
             'ro': param.Parameter(default=real['t5'], readonly=True),
+            'tx': param.Tuple(default=(real['t6'],), instantiate=True),
             'osel': param.Selector(objects=collections.OrderedDict([('lo', 1), ('hi', 2)])),     # named objects kept in a dict subclass
             'dg': param.Number(default=Gen(0))}
         if cfg.get('falsy'):
@@ -115,12 +122,12 @@ class C12(Harness):
             ops += [['new', 'M', None], ['new', 'Sub', None], ['new', 'M', 'l'], ['new', 'Sub', 'skipref'], ['new', 'M', 'dg'], ['new', 'Leaf', None], ['new', 'Sub', 'sel0']]
         holders = list(range(len(m.inst)))
         for i in holders:
-            ops += [['iset', i, 'n', 5], ['iupdate', i, 'n', 4], ['iset', i, 's', 'new'], ['iset', i, 'l', 'new'], ['mut', i, 'l'], ['mut', i, 's'], ['mut', i, 'k'], ['mut', i, 'x'], ['mut', i, 'lr'], ['objmut0', i], ['iset', i, 'sel0', 'alpha'],
+            ops += [['iset', i, 'n', 5], ['iupdate', i, 'n', 4], ['iset', i, 's', 'new'], ['iset', i, 'l', 'new'], ['mut', i, 'l'], ['mut', i, 's'], ['mut', i, 'k'], ['mut', i, 'x'], ['mut', i, 'tx'], ['mut', i, 'lr'], ['objmut0', i], ['iset', i, 'sel0', 'alpha'],
                     ['attr', i, 'n', 'bounds', [0, 5]], ['attr', i, 'g', 'bounds', [0, 6]], ['attr', i, 'n', 'doc', 'di'], ['objmut', i], ['touch', i, 'n'],
                     ['iset', i, 'n', 'cur'], ['iset', i, 's', 'cur'], ['oselmut', i], ['trigger', i, 'n'], ['trigger', i, 's']]
         for k in ('M', 'Sub'):
             ops += [['cset', k, 'n', 3 if k == 'M' else 4], ['cset', k, 's', 'new'], ['cset', k, 'l', 'new'], ['cset', k, 'k', 'new'],
-                    ['mut', k, 'l'], ['mut', k, 's'], ['attr', k, 'n', 'bounds', [0, 8] if k == 'M' else [0, 9]], ['objmut', k], ['cdefault', k, 'ro']]
+                    ['mut', k, 'l'], ['mut', k, 's'], ['mut', k, 'tx'], ['attr', k, 'n', 'bounds', [0, 8] if k == 'M' else [0, 9]], ['objmut', k], ['cdefault', k, 'ro']]
         ops.append(['csetsel', 'Sub'])          # the subclass gets its own copy of the inherited Selector
         return ops
 
@@ -146,7 +153,7 @@ class C12(Harness):
         for name, h in self.holders(w, m):
             for p in PARAMS:
                 exp = m.value(name, p)
-                got = getattr(h, p)
+                got = rd(h, p)
                 key = dict(holder='inst' if isinstance(name, int) else name, param=p, op=op[0])
                 if isinstance(exp, tuple):
                     t = exp[1]
@@ -259,7 +266,7 @@ class C12(Harness):
                 elif k == 'mut':
                     holder = op[1]
                     h = w['inst'][holder] if isinstance(holder, int) else w[holder]
-                    getattr(h, op[2]).append(99)
+                    rd(h, op[2]).append(99)
                     t = m.value(holder, op[2])
                     m.contents[t[1]].append(99)
                 elif k == 'attr':
